@@ -52,10 +52,17 @@ RULE = ("P (pipeline scenarios): a 4-gene linear record and a 3-gene circular re
         "through candidate clusters -> regions -> Region.get_unique_protoclusters order -> 'areas' JSON -> GenBank -> "
         "JSON under the same 8 (16) children and under 6 (24) set-order permutations.  Every child also differs in "
         "memory layout: seed k pre-allocates k mod 8 batches of unrelated objects and a few more before each case.  "
+        "The A family also holds the kind-promotion path of create_candidates_from_protoclusters: an interleaved pair "
+        "plus every non-empty subset of three further protoclusters lying inside its span (1 extra: the unit-tested "
+        "path; 2-3 extras), no two with equal coordinates, linear / ring / wrapped over the origin, both insertion "
+        "orders (42 cases; thorough 99).  The P family also has, in one gene at a time, hits of two or three different "
+        "non-equivalent profiles starting at the SAME protein position (a=d, d=a, a=c, a=c=d; d is used by no rule) "
+        "with the other genes empty / all `a` (56 scenarios; thorough 112).  Sets derived from a permuted set "
+        "(difference, union, ...) iterate in the chosen permutation too.  "
         "T (hits kept): all sets of 2-3 hits of the C13 grids q3, q5 / h1 that contain a tie (equal start, equal "
         "score, identical coordinates) for refine_hmmscan_results (8 seeds; every iteration order of the per-protein "
         "set) and hmmer.remove_overlapping (8 seeds); filter_results on the C13 sets f0, f1, f2 with every slot "
-        "(address) assignment of the HSP objects.  A case is one scenario / one hit set (+ mode); non-trivial: a P "
+        "(address) assignment of the HSP objects, comparing the survivors AND the order in which each gene's hits come back.  A case is one scenario / one hit set (+ mode); non-trivial: a P "
         "scenario yields >= 1 protocluster and has a gene with two hits or two genes with hits, a T set has >= 2 hits; "
         "distinct = distinct case.")
 EXHAUSTIVE = {"quick": True, "thorough": False}
@@ -81,7 +88,14 @@ GENE_OPTIONS: dict[str, list[list]] = {
     "AB": [["a", 0, 100, 50], ["b", 10, 110, 50]],       # overlapping, equal score
     "aB": [["a", 0, 100, 50], ["b", 10, 110, 60]],       # overlapping, b better (thorough only)
     "ac": [["a", 0, 100, 50], ["c", 150, 250, 40]],      # thorough only
+    # hits of different, non-equivalent profiles starting at the SAME protein position (ends / scores differ);
+    # d is a profile no rule uses: it only shows up as a domain of the gene
+    "a=d": [["a", 0, 100, 50], ["d", 0, 130, 70]],
+    "d=a": [["d", 0, 130, 70], ["a", 0, 100, 50]],
+    "a=c": [["a", 0, 100, 50], ["c", 0, 120, 40]],
+    "a=c=d": [["a", 0, 100, 50], ["c", 0, 120, 40], ["d", 0, 130, 70]],
 }
+EQUAL_START_OPTIONS = ["a=d", "d=a", "a=c", "a=c=d"]
 LINEAR = {"len": 30000, "circular": False,
           "genes": [["g1", 1000, 2000, 1], ["g2", 3000, 4000, 1], ["g3", 9000, 10000, -1], ["g4", 12000, 13000, 1]]}
 CIRCULAR = {"len": 20000, "circular": True,
@@ -113,6 +127,11 @@ def scenarios(tier: str) -> list[dict[str, Any]]:
                     choices.append(list(rest[:pos]) + ["AB"] + list(rest[pos:]))
         else:
             choices = [list(c) for c in itertools.product(["-", "a", "c", "ab", "AB", "aB", "ac"], repeat=n)]
+        # equal-start hits of different profiles in one gene, the other genes all empty / all with profile a
+        for pos in range(n):
+            for option in EQUAL_START_OPTIONS:
+                for rest in (["-", "a"] if tier == "quick" else ["-", "a", "c", "ab"]):
+                    choices.append([rest] * pos + [option] + [rest] * (n - 1 - pos))
         for choice in choices:
             if all(c == "-" for c in choice):
                 continue
@@ -178,7 +197,7 @@ def run_pipeline(scn: dict[str, Any]) -> dict[str, str]:
         for name, start, end, strand in scn["genes"]:
             rec.add_cds_feature(mod["CDSFeature"](mod["FeatureLocation"](start, end, strand), locus_tag=name,
                                                   translation="M" * ((end - start) // 3)))
-        profiles = ["a", "b", "c"]
+        profiles = ["a", "b", "c", "d"]
         rules = mod["rule_parser"].Parser(RULES_TEXT, set(profiles), {"Cat"}).rules
         sigs = {p: mod["HmmSignature"](p, "profile " + p, 10, "nofile") for p in profiles}
         ruleset = mod["cp"].Ruleset(tuple(rules), sigs, "nodb", {"Cat"}, "rule-based-clusters",
@@ -301,6 +320,48 @@ def area_cases(tier: str) -> list[dict[str, Any]]:
                             protos.reverse()
                         out.append({"fn": "areas", "len": AREA_LEN, "circular": circular, "genes": AREA_GENES,
                                     "template": name, "extra": extra_name, "protos": protos})
+    return out + promotion_cases(tier)
+
+
+# kind promotion in create_candidates_from_protoclusters: A and B interleave (cores overlap); the extras have
+# cores of their own inside the span of A+B, so the neighbouring group A+B+extras has exactly the span of the
+# interleaved candidate and is folded into it.  No two protoclusters share a start or a size.
+PROMOTION_BASE = [["T1PKS", [[3000, 5000]], [[0, 10000]]], ["NRPS", [[4500, 7000]], [[1000, 10000]]]]
+PROMOTION_EXTRAS = [["terpene", [[8000, 8500]], [[7500, 10000]]], ["butyrolactone", [[9000, 9500]], [[8700, 9900]]],
+                    ["lassopeptide", [[7200, 7400]], [[7100, 7900]]]]
+
+
+def _shifted(parts: list[list[int]], shift: int, length: int) -> list[list[int]]:
+    """ the location moved by `shift` on a ring of `length` (split at the origin when it wraps) """
+    out = []
+    for start, end in parts:
+        start, end = start + shift, end + shift
+        if start >= length:
+            out.append([start - length, end - length])
+        elif end > length:
+            out += [[start, length], [0, end - length]]
+        else:
+            out.append([start, end])
+    return out
+
+
+def promotion_cases(tier: str) -> list[dict[str, Any]]:
+    """ every non-empty subset of the three extras (one extra: the unit-tested, deterministic path), on a
+        linear record, on a ring, and on a ring shifted so that the whole group wraps over the origin; the
+        protoclusters are added in forward and reverse order (thorough: also rotated orders) """
+    out = []
+    subsets = [list(c) for size in (1, 2, 3) for c in itertools.combinations(PROMOTION_EXTRAS, size)]
+    for circular, shift in ((False, 0), (True, 0), (True, 14000)):
+        for extras in subsets:
+            protos = [[prod, _shifted(core, shift, AREA_LEN), _shifted(area, shift, AREA_LEN)]
+                      for prod, core, area in PROMOTION_BASE + extras]
+            orders = [protos, protos[::-1]]
+            if tier != "quick":
+                orders += [protos[k:] + protos[:k] for k in range(1, len(protos))]
+            for order in orders:
+                out.append({"fn": "areas", "len": AREA_LEN, "circular": circular, "genes": AREA_GENES,
+                            "template": "promotion", "extra": f"{len(extras)} extras, shift {shift}",
+                            "protos": [list(p) for p in order]})
     return out
 
 
@@ -376,6 +437,20 @@ class PermutedSet(set, metaclass=_AnySetMeta):
             items.reverse()
         shift = (mode // 2) % len(items)
         return iter(items[shift:] + items[:shift])
+
+
+def _derived(name: str) -> Callable[..., Any]:
+    def method(self: Any, *args: Any) -> Any:
+        result = getattr(set, name)(self, *args)
+        return PermutedSet(result) if type(result) is set else result  # pylint: disable=unidiomatic-typecheck
+    method.__name__ = name
+    return method
+
+
+# sets derived from a permuted set (s.difference(t), s | t, ...) iterate in the chosen permutation too
+for _name in ("difference", "union", "intersection", "symmetric_difference", "copy",
+              "__or__", "__and__", "__sub__", "__xor__", "__ror__", "__rand__", "__rsub__", "__rxor__"):
+    setattr(PermutedSet, _name, _derived(_name))
 
 
 PATCHED_MODULES = [
@@ -786,7 +861,10 @@ def call_filter_slots(hits: list[list], slots: list[int]) -> Any:
         results, by_id = module.filter_results(list(objs), by_id, [frozenset(O.F_GROUP)])
         first = sorted(obj.idx for obj in results)
         results, by_id = module.filter_result_multiple(results, by_id)
-        return [first, sorted(obj.idx for obj in results)]
+        # the survivors, and the ORDER in which each gene's hits come back (it becomes the order of the
+        # gene's domains in the results JSON and of its sec_met_domain qualifiers)
+        return [first, sorted(obj.idx for obj in results), {cds: [obj.idx for obj in objs_] for cds, objs_ in by_id.items()},
+                [obj.idx for obj in results]]
     except Exception as err:  # pylint: disable=broad-except
         return f"{type(err).__name__}: {err}"[:300]
 
